@@ -37,8 +37,23 @@ pub const POINTS: [&str; 5] = ["driver:pce:0", "driver:pce:1", "driver:pce:2", "
 pub const START: &str = "start";
 pub const END: &str = "end";
 
+/// A scheduling point of the harness's own (not one of h3's hooks): the simulated transport is about
+/// to report a staged connection error to the calling handle (`sim::InjectHook`). It does not
+/// depend on which of h3's functions the error then takes, hooked or not.
+pub const INJECT: &str = "sim:inject";
+
 pub fn point_index(p: &str) -> usize {
+    if p == INJECT {
+        // free mode: delayed like the hook before the store
+        return 3;
+    }
     POINTS.iter().position(|x| *x == p).unwrap_or(POINTS.len())
+}
+
+/// Reach a scheduling point from harness code: exactly what an h3 hook does (parks an actor of a
+/// forced rig, stamps and spins in a free rig, nothing on any other thread).
+pub fn harness_point(point: &'static str) {
+    on_hook(point)
 }
 
 pub fn watchdog() -> Duration {
@@ -136,6 +151,8 @@ struct ActorCtx {
     free_log: Vec<(u64, &'static str)>,
     /// free mode: spin iterations per hook point
     spin: [u32; 5],
+    /// forced mode: points this actor passes without parking (its segments are cut elsewhere)
+    pass: &'static [&'static str],
 }
 
 thread_local! {
@@ -178,12 +195,15 @@ fn on_hook(point: &'static str) {
                     spin(n);
                     None
                 }
-                Mode::Forced => Some((x.rig.clone(), x.actor)),
+                Mode::Forced if x.pass.contains(&point) => Some(None),
+                Mode::Forced => Some(Some((x.rig.clone(), x.actor))),
             },
         }
     });
     match forced {
-        Some((rig, actor)) => rig.park(actor, point),
+        Some(Some((rig, actor))) => rig.park(actor, point),
+        // an actor of a forced rig that does not stop here
+        Some(None) => {}
         None => {
             if CTX.with(|c| c.borrow().is_none()) {
                 PASS_THROUGH.fetch_add(1, Ordering::Relaxed);
@@ -279,12 +299,19 @@ impl Rig {
     /// mode, the thread's hook log. `spin` gives the free-mode delay per hook point (iterations),
     /// `skew` a delay between the start line and `f`.
     pub fn enter<T>(self: &Arc<Self>, actor: ActorId, spin_plan: [u32; 5], skew: u32, f: impl FnOnce() -> T) -> (T, Vec<(u64, &'static str)>) {
+        self.enter_passing(actor, spin_plan, skew, &[], f)
+    }
+
+    /// `enter` for an actor that, in forced mode, does not park at the points in `pass` (free mode
+    /// stamps them like any other): its call is cut into segments by the remaining points.
+    pub fn enter_passing<T>(self: &Arc<Self>, actor: ActorId, spin_plan: [u32; 5], skew: u32, pass: &'static [&'static str], f: impl FnOnce() -> T) -> (T, Vec<(u64, &'static str)>) {
         CTX.with(|c| {
             *c.borrow_mut() = Some(ActorCtx {
                 rig: self.clone(),
                 actor,
                 free_log: Vec::new(),
                 spin: spin_plan,
+                pass,
             })
         });
         let guard = FinishGuard { rig: self.clone(), actor };
